@@ -110,47 +110,26 @@ Section Primitive.
      exists i j a b, i < j /\ nth_error ks i = Some a /\ nth_error ks j = Some b /\ pkeq a b = true).
   Proof. exact (add_rejects_duplicates_p value phash pkeq pgood p_sym p_hash). Qed.
 
-  (* the primitive set hands back the key it was given: == to the original (identical unless both are float zeros of
-     different sign) *)
-  Lemma primitive_locate : forall ks s k, add_all value phash pkeq (empty_p value) ks = Some s ->
-    locate value phash pkeq s k = (if existsb (fun o => pkeq o k) ks then Some k else None).
-  Proof. exact (locate_p value phash pkeq). Qed.
+  Lemma p_trans : forall a b c, pgood a -> pgood b -> pgood c -> pkeq a b = true -> pkeq b c = true -> pkeq a c = true.
+  Proof. intros a b c _ _ _. exact (prim_equal_trans_all p a b c). Qed.
 
-  Lemma primitive_response_filed : forall (decode_key : bytes -> option value) (P : Type) ks s (entries : list (bytes * option P)) m,
+  (* primitive.go:21-24 (after 2a711aa): the STORED value is returned - for floats, the caller's own sign of zero *)
+  Lemma primitive_locate_returns_original : forall ks s k o, Forall pgood ks -> pgood k ->
+    add_all value phash pkeq (empty_p value) ks = Some s -> In o ks -> pkeq o k = true -> locate value phash pkeq s k = Some o.
+  Proof. exact (locate_returns_original_p value phash pkeq pgood p_sym p_trans). Qed.
+
+  Lemma primitive_response_filed_under_original : forall (decode_key : bytes -> option value) (P : Type),
+    (forall raw k, decode_key raw = Some k -> pgood k) ->
+    forall ks s (entries : list (bytes * option P)) m, Forall pgood ks ->
     add_all value phash pkeq (empty_p value) ks = Some s ->
     reply_nodup value pkeq decode_key P entries ->
     fill value phash pkeq decode_key P s [] entries = inr m ->
-    Forall2 (fun e kp => snd e = Some (snd kp) /\ decode_key (fst e) = Some (fst kp) /\ exists o, In o ks /\ pkeq o (fst kp) = true) entries m.
-  Proof. exact (fill_filed_p_strong value phash pkeq). Qed.
-
-  (* == on a primitive is identity except for the two float zeros *)
-  Lemma prim_equal_identity : forall a b, pkeq a b = true ->
-    a = b \/ (exists x y, a = VFloat x /\ b = VFloat y /\ is_zero32 x = true /\ is_zero32 y = true)
-          \/ (exists x y, a = VDouble x /\ b = VDouble y /\ is_zero64 x = true /\ is_zero64 y = true).
-  Proof.
-    intros a b H. unfold pkeq, prim_equal in H.
-    destruct p, a, b; try discriminate.
-    - left. apply Z.eqb_eq in H. subst. reflexivity.
-    - left. apply Z.eqb_eq in H. subst. reflexivity.
-    - unfold feq32 in H. apply andb_true_iff in H. destruct H as [_ H]. apply orb_true_iff in H. destruct H as [H|H].
-      + left. apply N.eqb_eq in H. subst. reflexivity.
-      + right. left. apply andb_true_iff in H. destruct H as [H1 H2]. eauto 8.
-    - unfold feq64 in H. apply andb_true_iff in H. destruct H as [_ H]. apply orb_true_iff in H. destruct H as [H|H].
-      + left. apply N.eqb_eq in H. subst. reflexivity.
-      + right. right. apply andb_true_iff in H. destruct H as [H1 H2]. eauto 8.
-    - left. apply Bool.eqb_prop in H. subst. reflexivity.
-    - left. apply bytes_eqb_eq in H. subst. reflexivity.
-    - left. apply bytes_eqb_eq in H. subst. reflexivity.
-  Qed.
+    Forall2 (fun e kp => snd e = Some (snd kp) /\ In (fst kp) ks /\ exists k, decode_key (fst e) = Some k /\ pkeq (fst kp) k = true) entries m.
+  Proof. intros dk P Hg. exact (fill_filed_under_original_p value phash pkeq pgood p_sym p_trans dk Hg P). Qed.
 End Primitive.
 
-(* the -0/+0 case of the primitive set, as a witness (replayed on the implementation: known finding rekey:primitive-signed-zero) *)
-Lemma primitive_signed_zero_refuted :
-  exists ks s k o, add_all value (phash) (pkeq PDouble) (empty_p value) ks = Some s /\ In o ks /\ pkeq PDouble o k = true /\
-                   locate value phash (pkeq PDouble) s k = Some k /\ k <> o.
-Proof.
-  exists [VDouble 0], (PSet value [VDouble 0]), (VDouble 9223372036854775808), (VDouble 0).
-  repeat split; try reflexivity.
-  - left. reflexivity.
-  - discriminate.
-Qed.
+(* the caller's +0 is handed back for a looked-up -0 (the case that failed before 2a711aa) *)
+Example primitive_signed_zero_original :
+  exists s, add_all value phash (pkeq PDouble) (empty_p value) [VDouble 0] = Some s /\
+            locate value phash (pkeq PDouble) s (VDouble 9223372036854775808) = Some (VDouble 0).
+Proof. eexists. split; reflexivity. Qed.
